@@ -16,6 +16,10 @@ for _sz in SIZES:
     HARNESSES.append(dict(name="c14tbb", src="harness/c14.cpp", repo_srcs=_SRCS, flags=["-DRKCOMMON_TASKING_TBB"],
                           libs=["-ltbbmalloc"], args=[str(_sz)], driver_args=[str(_sz)], sz=_sz, backend="tbb", timeout=150))
 
+# RKCOMMON_NO_SIMD is a supported configuration of the library: one more build of the _mm_malloc back end with it
+HARNESSES.append(dict(name="c14mm_nosimd", src="harness/c14.cpp", repo_srcs=_SRCS, flags=["-DRKCOMMON_NO_SIMD"], args=["4"],
+                      driver_args=["4"], sz=4, backend="mm", timeout=150))
+
 RULE = ("four case kinds per (back end in {_mm_malloc, TBB scalable}) x (sizeof(T) in {1,4,12,64}): "
         "(raw) interleaved alignedMalloc/alignedFree over 8 slots, sizes from a boundary-heavy set (0, 2^k-1, 2^k, 2^k+1 up to 1 MiB, "
         "and sizes near 2^63/2^64) x alignments 1..4096, every live block pattern-filled over its full extent and re-verified after "
@@ -204,6 +208,9 @@ def gen_cases(rng, tier, h):
         cases.append(_alloc_case(rng, sz))
     for _ in range(24 if q else 400):
         cases.append(_arith_case(rng, sz))
+    # AlignedVector of an element type with an observable moved-from state against std::vector (self-checking op)
+    for _ in range(6 if q else 200):
+        cases.append(["svcheck %d" % rng.randrange(1 << 30) for _ in range(5)])
     return cases
 
 
@@ -213,6 +220,8 @@ _REALLOC = ("push", "resize", "resize0", "reserve", "shrink", "assign", "copy", 
 def nontrivial(case):
     ops = [l.split()[0] for l in case]
     if sum(1 for o in ops if o in ("am", "al", "alh")) >= 3:
+        return True
+    if "svcheck" in ops:
         return True
     if sum(1 for o in ops if o in ("ap", "ia", "ms", "va")) >= 4:
         return True
